@@ -240,8 +240,49 @@ func ruleGuardedIndexing(c *Ctx, rule string) {
 						}
 						scoped = true
 						leaf := leaf
+						// the guard must stand between the search and the first instruction that consumes its raw
+						// result on the way to the bound (the slice itself, or the arithmetic / loop variable it
+						// flows into): a value derived in an earlier, guarded iteration is not this iteration's -1
+						onWay := map[ssa.Value]bool{}
+						boundLeaves(bound, onWay, new([]ssa.Value))
+						consumers := map[ssa.Instruction]bool{}
+						// loop variables that carry the raw result (phis) are the result itself: their guard comes
+						// after them
+						alias := map[ssa.Value]bool{leaf: true}
+						for changed := true; changed; {
+							changed = false
+							for v := range onWay {
+								phi, isPhi := v.(*ssa.Phi)
+								if !isPhi || alias[v] {
+									continue
+								}
+								for _, e := range phi.Edges {
+									if alias[e] {
+										alias[v] = true
+										changed = true
+									}
+								}
+							}
+						}
+						if alias[bound] {
+							consumers[in] = true
+						}
+						for v := range onWay {
+							vi, isInstr := v.(ssa.Instruction)
+							if !isInstr || alias[v] {
+								continue
+							}
+							for _, op := range vi.Operands(nil) {
+								if alias[*op] {
+									consumers[vi] = true
+								}
+							}
+						}
+						if len(consumers) == 0 {
+							consumers[in] = true
+						}
 						path := (&an.Query{
-							Target:    func(t ssa.Instruction) bool { return t == in },
+							Target:    func(t ssa.Instruction) bool { return consumers[t] },
 							Block:     func(t ssa.Instruction) bool { return t == ssa.Instruction(call) },
 							BlockEdge: func(b *ssa.BasicBlock, succ int) bool { return nonNegEdge(b, succ, leaf) },
 						}).Search(an.After(call))
